@@ -15,7 +15,7 @@ from scen import Scn
 import scenario_common as sc
 
 LIMIT = 6 * 1024 * 1024 + 100
-KINDS = ["ok", "ok", "error", "oversize", "timeout", "exit"]
+KINDS = ["ok", "ok", "error", "oversize", "timeout", "exit", "abort", "repoll"]
 
 
 def sizes(rnd, thorough):
@@ -35,15 +35,28 @@ def one(sid, rnd, kinds, thorough):
     fresh = False
     for j, kind in enumerate(kinds):
         ctx = "ctx-%d-%s" % (j, "x" * rnd.randrange(0, 40)) if rnd.random() < 0.5 else ""
-        it = s.invoke(size=sizes(rnd, thorough), seed=rnd.randrange(1, 10 ** 6), ctx=ctx)
+        it = s.invoke(size=(3 * 1024 * 1024 if kind == "abort" else sizes(rnd, thorough)), seed=rnd.randrange(1, 10 ** 6), ctx=ctx)
         if fresh:
             # the previous environment was torn down: this invocation starts a new runtime (inline init)
             nexec += 1
             s.await_exec(kind="rt", n=nexec)
             polltag = s.call("rt", "next", async_=True)
             fresh = False
+        if kind == "abort":
+            # the connection of the poll that receives a large event breaks part-way; the runtime polls again
+            # (same invocation, whole event), answers, and the next invocation must get its own event
+            pass
         s.wait(polltag)
-        if kind == "ok":
+        if kind in ("repoll", "abort"):
+            if kind == "abort":
+                s.call("rt", "nextabort", size=20000)
+            # a repeated poll before responding returns the same invocation again
+            t2 = s.call("rt", "next", async_=True)
+            s.wait(t2)
+            s.call("rt", "response", id="current", size=sizes(rnd, thorough), seed=rnd.randrange(1, 10 ** 6))
+            polltag = s.poll("rt")
+            s.wait(it)
+        elif kind == "ok":
             s.call("rt", "response", id="current", size=sizes(rnd, thorough), seed=rnd.randrange(1, 10 ** 6))
             polltag = s.poll("rt")
             s.wait(it)
@@ -70,7 +83,7 @@ def scenarios(ctx):
     out = []
     n = 0
     # all histories of length <= 2 over the five kinds, then random longer ones
-    kinds = ["ok", "error", "oversize", "timeout", "exit"]
+    kinds = ["ok", "error", "oversize", "timeout", "exit", "abort", "repoll"]
     hist = [[a] for a in kinds] + [[a, b] for a in kinds for b in kinds]
     if ctx.quick:
         hist = [h for h in hist if "oversize" not in h or len(h) == 1 or h[1] == "ok"]
